@@ -60,7 +60,7 @@ pub fn install() {
         return;
     }
     unsafe {
-        libc::signal(libc::SIGABRT, on_abort as usize);
+        libc::signal(libc::SIGABRT, on_abort as *const () as usize);
     }
     std::thread::Builder::new()
         .name("c20-watchdog".into())
